@@ -205,6 +205,11 @@ async fn execute_batch<S>(
 where
     S: Storage,
 {
+    #[cfg(datacake_verif)]
+    if let Some(delay) = datacake_crdt::verif::jitter_for("distributor.execute_batch") {
+        tokio::time::sleep(delay).await;
+    }
+
     let batch = Arc::new(batch);
     let limiter = Arc::new(Semaphore::new(MAX_CONCURRENT_REQUESTS));
     let mut tasks = Vec::with_capacity(live_members.len());
